@@ -182,7 +182,7 @@ def correspondence(ctx, model_ok):
         if ctx.quick():
             limit = 40000 if is_default else 600
         elif not is_default:
-            limit = 20000
+            limit = 8000
         if limit is not None and len(pairs) > limit:
             rng.shuffle(pairs)
             pairs = pairs[:limit]
